@@ -7,7 +7,13 @@ use std::mem::ManuallyDrop;
 use std::panic::UnwindSafe;
 use std::ptr::{self, NonNull};
 use std::sync::Arc;
-use std::sync::atomic::{AtomicU8, Ordering};
+use std::sync::atomic::Ordering;
+// verif hook H3: under a controlled scheduler the per-handle cancellation token must be visible
+// to it (its operations become scheduling points); everywhere else it is the std atomic.
+#[cfg(not(all(feature = "salsa_verif", feature = "shuttle")))]
+use std::sync::atomic::AtomicU8;
+#[cfg(all(feature = "salsa_verif", feature = "shuttle"))]
+use shuttle::sync::atomic::TokenU8 as AtomicU8;
 
 use rustc_hash::FxHashMap;
 use thin_vec::ThinVec;
